@@ -401,6 +401,9 @@ func c18Custom(t *testing.T, sc *world.Scenario, out *Outcome) {
 	out.SimMs = s.SimTime().Milliseconds()
 	out.Hash = s.Hash()
 	out.Hazards = s.Hazards
+	for n, c := range s.HazardNames {
+		out.Probes["hazard:"+n] += c
+	}
 	out.Ops = len(reads) + wn
 	out.Fired = pn.Fired
 	out.SiteHits = s.SiteHits
